@@ -803,7 +803,7 @@ fn run_miri(scenario: usize, flags: &str) -> Result<String, String> {
 }
 
 fn run_miri_args(prog_args: &[String], flags: &str) -> Result<String, String> {
-    let dir = verif_dir().join("miri-lane");
+    let dir = std::env::var("VSIM_MIRI_DIR").map(PathBuf::from).unwrap_or_else(|_| verif_dir().join("miri-lane"));
     let out = Command::new("cargo")
         .args(["+nightly", "miri", "run", "--offline", "--"])
         .args(prog_args)
